@@ -74,6 +74,34 @@ CHECKS['C08'] = {
     'technique': 'Hypothesis-generated fault histories on a cluster simulator, bounded-liveness predicate after a fair suffix',
 }
 
+CHECKS['C15'] = {
+    'engine': 'E3-solo',
+    'category': 'exploration',
+    'text': ('Differential property tests on real ApplicationStatus / ProcessStatus objects: application state and '
+             'required-based status recomputed from the statement over generated state vectors; formulas generated from '
+             'a grammar compared with a harness evaluator working on the generated tree; hostile / ill-formed strings must '
+             'be rejected at load or give a boolean major failure, with a sys.addaudithook monitor proving that nothing '
+             'else is executed. Held on everything explored.'),
+    'design_ref': 'DESIGN.md 5/C15',
+    'note': ('Trusted: the reference evaluators (about 60 lines), the audit-hook white list, Hypothesis. Bounds: <= 6 '
+             'processes, formula depth <= 3, hostile strings <= 40 characters. Leaf truth taken from the code (running '
+             'or expected exit).'),
+    'technique': 'Hypothesis differential testing vs reference evaluator + audit-hook side-effect oracle on hostile inputs',
+}
+CHECKS['C20'] = {
+    'engine': 'E3-solo',
+    'category': 'exploration',
+    'text': ('Stateful model-based test of the real host / process statistics compilers: generated sample streams '
+             '(changing interface / disk / partition sets, independent counter wraps, pid changes, pid 0, unseen sources, '
+             'timestamps around the period, local and JSON round-tripped payloads); after every push depth, alignment, '
+             'period gate (against a model of the reference times), CPU range, non-negative finite rates, dropped '
+             'history on pid 0 are checked in the structures and in the returned payloads.'),
+    'design_ref': 'DESIGN.md 5/C20',
+    'note': ('Trusted: the stream generator (monotonic jiffies, CPU work consistent with the core count), the model of '
+             'the period gate, Hypothesis. Bounds: 3 identifiers, 3 namespecs, stats_histo 10-13, <= 90 pushes per stream.'),
+    'technique': 'Hypothesis rule-based state machine with invariants after every step',
+}
+
 HOOK_COMMITS = []
 
 ENGINES = [
@@ -83,10 +111,10 @@ ENGINES = [
      'serves_properties': ['C01', 'C02', 'C08', 'C16']},
     {'name': 'E3-solo', 'path': 'clustersim/solo.py', 'kind_free_text':
         'one real instance with puppet peers / pure component harnesses driven by Hypothesis',
-     'serves_properties': ['C11']},
+     'serves_properties': ['C11', 'C15', 'C20']},
 ]
 
 _PENDING = 'check not built yet in this round (the technique applies; see DESIGN.md section 5)'
 NOT_APPLICABLE = {pid: _PENDING for pid in
-                  ['C03', 'C04', 'C05', 'C06', 'C07', 'C09', 'C10', 'C12', 'C13', 'C14', 'C15',
-                   'C17', 'C18', 'C19', 'C20']}
+                  ['C03', 'C04', 'C05', 'C06', 'C07', 'C09', 'C10', 'C12', 'C13', 'C14',
+                   'C17', 'C18', 'C19']}
